@@ -121,7 +121,7 @@ pub fn run(args: &[String]) -> String {
                         for s1 in [0u32, 1] {
                             for k2 in [k1, k0, 16] {
                                 for at in [1u8, 2] {
-                                    for (from, to) in [(0u8, 2u8), (1, 3), (2, 4)] {
+                                    for (from, to) in [(0u8, 2u8), (1, 3), (2, 4), (0x80, 2), (0x81, 3)] {
                                         for mode in [false, true] {
                                             let (a, b, c) = (k0 as u8, k1 as u8, k2 as u8);
                                             if !guarded(move || scenario_switching([a, b, c], [s0 as u8, s1 as u8, 1], at, from, to, mode, false)) {
@@ -135,7 +135,7 @@ pub fn run(args: &[String]) -> String {
                     }
                 }
             }
-            "HOLDS bound: all ordered pairs of (key, state) events + third press (same key / first key / a letter), variant switched before event 2 or 3, 3 variant pairs, both modes".into()
+            "HOLDS bound: all ordered pairs of (key, state) events + third press (same key / first key / a letter), variant switched before event 2 or 3, 3 variant pairs by value + 2 by reference, both modes".into()
         }
         // C07 proper: resynchronisation after every 1..3-byte stream whose last output is an event or error, 6 probe suffixes;
         // and the bound on consecutive 'no event yet' over all 4-byte streams of prefix-like bytes
